@@ -355,6 +355,8 @@ def ref_eval(req):
         q = Position(mk(*aq), system=SYS[sq])
         p.other = q
         return arr_of(np.asarray(getattr(p, QNAMES[qt])))
+    if kind == "pv":
+        return ref_pv(req)
     if kind == "time":
         _, scale, fmt, val, to = req
         t = mk_time(scale, fmt, val)
@@ -395,6 +397,7 @@ class Servers:
         # import (only import - nothing is called) what the forks need, so that a fork costs a millisecond
         import numpy  # noqa: F401
         from midgard.data import position, time as _t  # noqa: F401
+        from midgard.data.position import PosVel, PositionDelta  # noqa: F401
         from midgard.math import transformation, rotation, ellipsoid  # noqa: F401
         from midgard.dev import exceptions  # noqa: F401
         while True:
@@ -607,6 +610,17 @@ def scenarios(thorough):
                [("Slice", 0, 1, 5), ("Slice", 0, 2, 5), ("Slice", 1, 1, 6), ("Conv", 0), ("Conv", 5), ("Read", 0, 1),
                 ("Read", 5, 1), ("SetRow", 0, W(V2)), ("SetRow", 5, W(V2)), ("SetRow", 1, W(V2)), ("SetRow", 6, W(V0)),
                 ("WriteRes", C_FILL)]))
+    # G: several dependents of one `other`, some of them garbage collected (slot re-bound) before `other` is mutated
+    sc.append(("deps",
+               [("NewPos", 0, 1, A(V0)), ("NewPos", 1, 1, A(V1)), ("NewPos", 3, 1, A([V0])), ("NewPos", 4, 2, A(L1)),
+                ("SetOther", 0, 1), ("SetOther", 3, 1), ("SetOther", 4, 1), ("NewPos", 0, 1, A(V2))],
+               [("Read", 3, 1), ("Read", 3, 3), ("Read", 4, 1), ("Read", 4, 4), ("SetRow", 1, W(V2)), ("SetRow", 1, W(V0)),
+                ("NewPos", 3, 1, A([V1])), ("SetOther", 4, 1), ("SetOther", 0, 1), ("SetOther", 3, 1)]))
+    # B: a converted object has been made and written into before the derived quantities of its source are used
+    sc.append(("backref",
+               [("NewPos", 0, 1, A(V0)), ("NewPos", 1, 1, A(V1)), ("SetOther", 0, 1), ("Conv", 0), ("WriteRes", C_FILL)],
+               [("Read", 0, 1), ("Read", 0, 2), ("Read", 0, 4), ("SetRow", 1, W(V2)), ("SetRow", 0, W(V2)), ("Conv", 0),
+                ("WriteRes", C_FILL), ("SetOther", 0, 1), ("Conv", 1)]))
     return sc
 
 
@@ -740,6 +754,157 @@ def time_case_term(pool, ops, seen, table):
     return f"({tt}, {emit.lst(top(o) for o in ops)}, {emit.lst(f'({emit.z(c)}, {pool.ref(a)})' for c, a in seen)})"
 
 
+# ------------------------------------------------------------------------------------------ PosVel / PositionDelta
+PV_A = [10000e3, 15000e3, 18000e3, 2000.0, -2500.0, 1500.0]
+PV_B = [-12000e3, 20000e3, 9000e3, 1500.0, 2200.0, -2600.0]
+PV_C = [7000e3, -21000e3, 12000e3, 3000.0, 1000.0, 1200.0]
+PV_KA = [21210193.0, 0.226085234, 2.23199753, 1.87241537, 4.63021704, 2.66698029]
+PV_KB = [26559000.0, 0.01, 0.96, 1.0, 2.0, 3.0]
+PVSYS = {3: "trs", 4: "kepler"}
+PVREAD = {1: "pos", 2: "vel", 4: "trs2acr", 5: "distance", 6: "elevation"}
+
+
+def A6(rows):
+    if isinstance(rows[0], (int, float)):
+        return ((0, len(rows)), tuple(f2w(x) for x in rows))
+    return ((0, len(rows), len(rows[0])), tuple(f2w(x) for r in rows for x in r))
+
+
+def _pv_make(kind, a, ref=None):
+    from midgard.data.position import PosVel, Position, PositionDelta
+    if kind in (3, 4):
+        return PosVel(mk(*a), system=PVSYS[kind])
+    if kind == 5:
+        return PositionDelta(mk(*a), system="trs", ref_pos=ref)
+    return Position(mk(*a), system="trs")
+
+
+def _pv_read(p, kind, what):
+    import numpy as np
+    if what == 3:
+        return np.asarray(p.kepler if kind == 3 else p.trs)
+    if what == 8:
+        return np.asarray(p.enu)
+    return np.asarray(getattr(p, PVREAD[what]))
+
+
+def _pv_set(x, mode, vals):
+    if mode == 2:
+        x[...] = vals
+    elif x.ndim == 1:
+        x[:] = vals
+    elif mode == 1 or x.shape[0] == 1:
+        x[0:1] = [vals]
+    else:
+        x[0] = vals
+
+
+def run_pv_history(ops):
+    """PosVel / PositionDelta history on the implementation (call only in a fresh fork)."""
+    import numpy as np
+    from midgard.dev import exceptions
+    slots, kinds, links = {}, {}, {}
+    seen, reqs = [], []
+    for o in ops:
+        try:
+            if o[0] == "PNew":
+                _, s_, kind, a, link = o
+                slots[s_] = _pv_make(kind, a, slots.get(link) if kind == 5 else None)
+                kinds[s_] = kind
+                links[s_] = link if kind == 5 else None
+                seen.append((NOTHING, 0))
+            elif o[0] == "PSet":
+                _pv_set(slots[o[1]], o[2], [w2f(w) for w in o[3]])
+                seen.append((NOTHING, 0))
+            elif o[0] == "POther":
+                slots[o[1]].other = None if o[2] is None else slots[o[2]]
+                links[o[1]] = o[2]
+                seen.append((NOTHING, 0))
+            elif o[0] == "PRead":
+                _, s_, what = o
+                p = slots[s_]
+                if what in (5, 6, 8):
+                    if links[s_] is None:
+                        try:
+                            getattr(p, PVREAD[what])
+                            seen.append((NOTHING, -8))
+                        except exceptions.InitializationError:
+                            seen.append((NOTHING, -2))
+                        continue
+                    q = slots[links[s_]]
+                    reqs.append(("pv", what, kinds[s_], arr_of(np.asarray(p)), kinds[links[s_]], arr_of(np.asarray(q))))
+                else:
+                    reqs.append(("pv", what, kinds[s_], arr_of(np.asarray(p)), None, None))
+                seen.append((arr_of(_pv_read(p, kinds[s_], what)), 0))
+        except Exception as e:
+            seen.append((((98,), tuple(type(e).__name__.encode()[:40])), -7))
+    return seen, reqs
+
+
+def ref_pv(req):
+    _, what, kind, a, kind2, a2 = req
+    if what == 8:
+        ref = _pv_make(kind2, a2)
+        p = _pv_make(5, a, ref)
+    else:
+        p = _pv_make(kind, a)
+        if kind2 is not None:
+            p.other = _pv_make(kind2, a2)
+    return arr_of(_pv_read(p, kind, what))
+
+
+def pv_scenarios():
+    W6 = lambda v: tuple(f2w(x) for x in v)
+    sc = []
+    for name, mkrows in (("pv6", lambda *r: A6(r[0])), ("pv16", lambda *r: A6([r[0]])), ("pv26", lambda *r: A6([r[0], r[1]]))):
+        prelude = [("PNew", 0, 3, mkrows(PV_A, PV_B), None), ("PNew", 1, 3, mkrows(PV_B, PV_C), None),
+                   ("PNew", 2, 4, mkrows(PV_KA, PV_KB), None), ("POther", 0, 1)]
+        # parts and conversions of one object under row / slice / whole assignment
+        sc.append((name + "-parts", prelude,
+                   [("PRead", 0, 1), ("PRead", 0, 2), ("PRead", 0, 3), ("PRead", 0, 4), ("PRead", 2, 3), ("PRead", 2, 4),
+                    ("PSet", 0, 0, W6(PV_C)), ("PSet", 0, 1, W6(PV_B)), ("PSet", 0, 2, W6(PV_C)), ("PSet", 2, 0, W6(PV_KB))]))
+        # quantities that depend on `other`: mutate / detach / re-attach it
+        sc.append((name + "-other", prelude,
+                   [("PRead", 0, 5), ("PRead", 0, 6), ("PRead", 0, 1), ("PSet", 1, 0, W6(PV_A)), ("PSet", 1, 2, W6(PV_C)),
+                    ("PSet", 0, 0, W6(PV_C)), ("POther", 0, None), ("POther", 0, 1)]))
+    # position deltas with a reference position that is mutated
+    for name, d, r in (("delta3", A([1.0, 2.0, 3.0]), A(V0)), ("delta23", A([[1.0, 2.0, 3.0], [-4.0, 5.0, 0.5]]), A([V0, V1]))):
+        sc.append((name,
+                   [("PNew", 0, 6, r, None), ("PNew", 1, 5, d, 0)],
+                   [("PRead", 1, 8), ("PSet", 0, 0, W(V2)), ("PSet", 0, 2, W(V1)), ("PSet", 1, 0, W([7.0, 8.0, 9.0])),
+                    ("PSet", 1, 2, W([0.5, 0.25, 2.0]))]))
+    return sc
+
+
+def gen_pv_histories(ctx):
+    light = os.environ.get("VERIF_C08_LIGHT")
+    full = int(light) if light else 3 if ctx.quick() else 4
+    only = os.environ.get("VERIF_C08_SCEN")
+    hs = []
+    for name, prelude, alpha in pv_scenarios():
+        if only and name not in only.split(","):
+            continue
+        for L in range(1, full + 1):
+            for combo in itertools.product(alpha, repeat=L):
+                hs.append((name, prelude + list(combo)))
+        if not light:
+            for _ in range(250 if ctx.quick() else 3000):
+                hs.append((name, prelude + [ctx.rng.choice(alpha) for _ in range(ctx.rng.randrange(3, 9))]))
+            for _ in range(10 if ctx.quick() else 150):
+                hs.append((name + "-long", prelude + [ctx.rng.choice(alpha) for _ in range(ctx.rng.randrange(9, 41))]))
+    return hs
+
+
+def pvop_term(pool, o):
+    if o[0] == "PNew":
+        return f"(PNew {o[1]} {o[2]} {pool.ref(o[3])} {emit.opt(None if o[4] is None else str(o[4]))})"
+    if o[0] == "PRead":
+        return f"(PRead {o[1]} {o[2]})"
+    if o[0] == "PSet":
+        return f"(PSet {o[1]} {o[2]} {emit.lst(emit.z(w) for w in o[3])})"
+    return f"(POther {o[1]} {emit.opt(None if o[2] is None else str(o[2]))})"
+
+
 # ------------------------------------------------------------------------------------------ the run
 def shard_term(fn, pool, case_terms):
     return (f"let A := {pool.term()} in\nlet g := fun i : nat => List.nth i A (@nil Z, @nil Z) in\n"
@@ -820,6 +985,55 @@ def _run(ctx, srv):
         else:
             ctx.violation(rep, what=f"midgard's observations differ from the model and from every quirk machine (scenario {name})")
 
+    # ---------------------------------------------------------------- PosVel / PositionDelta objects
+    phs = gen_pv_histories(ctx)
+    pres = srv.map("hist_pv", [ops for _, ops in phs])
+    pgood = []
+    for (name, ops), (st, val) in zip(phs, pres):
+        if st != "ok":
+            ctx.violation(dict(kind="pv_history", scenario=name, ops=describe(ops), error=val), what="PosVel history runner failed")
+            continue
+        pgood.append((name, ops, val[0], val[1]))
+    ref.need([r for g in pgood for r in g[3]])
+    pshards = []
+    for i in range(0, len(pgood), shard_size):
+        pool = Pool()
+        terms = []
+        for name, ops, seen, reqs in pgood[i:i + shard_size]:
+            tab = {}
+            for r in reqs:
+                out = ref.get(r)
+                if out is not None:
+                    _, what, kind, a, kind2, a2 = r
+                    tab[(what * 100 + kind * 10 + (kind2 or 0), (a,) if a2 is None else (a, a2))] = out
+            tt = emit.lst(f"({k[0]}, {emit.lst(pool.ref(x) for x in k[1])}, {pool.ref(v)})" for k, v in tab.items())
+            terms.append(f"({tt}, {emit.lst(pvop_term(pool, o) for o in ops)}, "
+                         f"{emit.lst(f'({pool.ref(a)}, {emit.z(x)})' for a, x in seen)})")
+        pshards.append(shard_term("check_pv", pool, terms))
+    pvs = ctx.coq_cases(pshards, REQ)
+    pflat = emit.flatten_verdicts(pvs, len(pgood))
+    if pflat is None:
+        ctx.violation({"broken": "PosVel correspondence shards did not evaluate in Coq", "errors": ctx.last_coq_errors[:2]},
+                      what="correspondence (model evaluation) failed", found=False)
+        pflat = []
+    for (name, ops, seen, reqs), v in zip(pgood, pflat):
+        body = [o for o in ops if o[0] != "PNew"]
+        ctx.count(f"scenario:{name}")
+        ctx.count(f"verdict-pv:{v}")
+        rep = dict(kind="pv_history", scenario=name, ops=describe(ops),
+                   observed=[[list(a[0]), [w2f(w) if a[0] and a[0][0] == 0 else w for w in a[1]], x] for a, x in seen],
+                   verdict=v, legend="kinds 3 TrsPosVel 4 KeplerPosVel 5 TrsPositionDelta 6 TrsPosition; reads 1 pos 2 vel 3 other system "
+                                     "4 trs2acr 5 distance 6 elevation 8 delta.enu; PSet mode 0 row / 1 slice / 2 whole")
+        ctx.case((name, repr(ops)), nontrivial=len(body) >= 3)
+        if v == 0:
+            continue
+        if v == 2:
+            ctx.count("quirk:c08_refpos_mutation_stale")
+            ctx.finding("c08_refpos_mutation_stale",
+                        "PositionDelta conversions (.enu) are not invalidated when the reference position is changed by item assignment", rep)
+        else:
+            ctx.violation(rep, what=f"PosVel/PositionDelta observations differ from the uncached reference of the current contents (scenario {name})")
+
     # ---------------------------------------------------------------- time scales
     ths = gen_time_histories(ctx)
     tres = srv.map("hist_time", ths)
@@ -894,7 +1108,13 @@ def _run(ctx, srv):
 
 
 def _dispatch(what, payload):
-    return run_history(payload) if what == "hist" else run_time_history(payload) if what == "hist_time" else ref_eval(payload)
+    if what == "hist":
+        return run_history(payload)
+    if what == "hist_time":
+        return run_time_history(payload)
+    if what == "hist_pv":
+        return run_pv_history(payload)
+    return ref_eval(payload)
 
 
 def replay(ctx, path):
